@@ -244,7 +244,7 @@ def run(rep):
     from . import c03
     dis_e, bad_e = c03.stage_w_emit(rep, random.Random(rng.random()), 200 if thorough else 30)
     found += bad_e
-    if dis_e and not found:
+    if dis_e and not rep.n_with_input:
         _, bad_e2 = c03.stage_w_emit(rep, random.Random(rng.random()), 2000 if thorough else 300, tag='W:emit widened')
         found += bad_e2
     n = 24 if thorough else 4
@@ -256,15 +256,15 @@ def run(rep):
     if rep.traces == 0:
         rep.fail('no generated project could be configured: the system-level comparison did not run',
                  {'obligation': 'system-level correspondence', 'samples': rep.samples[:2]}, found_input=False)
-    if dis_e and not found:
+    if dis_e and not rep.n_with_input:
         i, call, iv, mv = dis_e[0]
         rep.fail('W:%s - emitter model and real rule handler disagree (%d cases), e.g. %r: impl %r, model %r' % (call[0], len(dis_e), call[1], iv, mv),
                  {'obligation': 'W:' + call[0], 'call': call, 'impl': iv, 'model': mv}, found_input=False)
-    if dis_c and not found:
+    if dis_c and not rep.n_with_input:
         i, call, iv, mv = dis_c[0]
         rep.fail('W:%s - compilation-database model and implementation disagree (%d cases), e.g. %r: impl %r, model %r' % (call[0], len(dis_c), call[1], iv, mv),
                  {'obligation': 'W:' + call[0], 'call': call, 'impl': iv, 'model': mv}, found_input=False)
-    if dis and not found:
+    if dis and not rep.n_with_input:
         i, call, iv, mv = dis[0]
         rep.fail('W:%s - model and implementation disagree (%d cases), e.g. %r: impl %r, model %r' % (call[0], len(dis), call[1], iv, mv),
                  {'obligation': 'W:' + call[0], 'call': call, 'impl': iv, 'model': mv}, found_input=False)
